@@ -106,7 +106,7 @@ def storage_commit_writes_every_dirty_entry(w: World):
         check(wrote, "every entry that was dirty was handed to the storage writer")
 
 
-@lemma(props=["C08", "C06", "C11"], configs="none", raises=["AssertionError"],
+@lemma(props=["C08", "C06", "C11", "C07"], configs="none", raises=["AssertionError"],
        inline=["cloudsync.sync.state:SyncState.lookup_oid"])
 def load_rebuilds_indexes_and_pending_set(w: World, sid: int):
     """L8.4 / L6.8: starting a state over storage that holds one row: the entry is rebuilt with the row's fields and its
@@ -139,7 +139,7 @@ def load_rebuilds_indexes_and_pending_set(w: World, sid: int):
             check(st2.lookup_oid(s, None) is None, "a side without an id is not indexed")
 
 
-@lemma(props=["C06"], configs="none", raises=["AssertionError", "Exception"],
+@lemma(props=["C06", "C07", "C08"], configs="none", raises=["AssertionError", "Exception"],
        inline=["cloudsync.sync.state:SyncState.storage_update_data", "cloudsync.sync.state:SyncState.storage_get_data"])
 def stored_data_is_written_under_its_tag(w: World, tag: opt_str, sid: int, has_row: bool, old: str, new: str):
     """L6.9: persisting a named datum (the event cursor, the walk record): nothing without a tag; otherwise the value is
